@@ -212,7 +212,7 @@ def run_one(case, work, rec, gparams, chkname, nconf):
     if nconf < 8:
         configs = [c for c in configs if c[2]] + [c for c in configs if not c[2]]     # flooring first
     for ci, (gradp, reactions, floor, src, outform) in enumerate(configs[:nconf]):
-        out = os.path.join(work, f"pltout{ci}") if outform == "explicit" else None
+        out = workload.out_path(work, f"pltout{ci}", ci, rec) if outform == "explicit" else None
         expected_out = out or os.path.join(work, chkname.replace("chk", "plt"))
         key = (digest, gradp, reactions, floor, src, outform)
         descr = (f"gradp={gradp} species_reactions={reactions} floor_massfracs={floor} species from {src} "
